@@ -18,97 +18,98 @@ import (
 )
 
 type MsgSpec struct {
-	Data       []byte `json:"data"`                 // canonical proto bytes of the message
-	Compressed bool   `json:"compressed,omitempty"` // per-frame flag choice
+	Data       []byte `json:"data"`                  // canonical proto bytes of the message
+	Compressed bool   `json:"compressed,omitempty"`  // per-frame flag choice
 	RawPayload []byte `json:"raw_payload,omitempty"` // if set, this is put on the wire verbatim (hostile)
 	HasRaw     bool   `json:"has_raw,omitempty"`     // RawPayload is meant even if empty (survives JSON)
-	Flags      *int   `json:"flags,omitempty"`      // override flag byte (hostile)
-	LenDelta   int    `json:"len_delta,omitempty"`  // declared length = real length + delta (hostile)
+	Flags      *int   `json:"flags,omitempty"`       // override flag byte (hostile)
+	LenDelta   int    `json:"len_delta,omitempty"`   // declared length = real length + delta (hostile)
 }
 
 type RespPlan struct {
-	Headers      [][2]string `json:"headers,omitempty"`
-	Msgs         []MsgSpec   `json:"msgs,omitempty"`
-	Compression  string      `json:"compression,omitempty"`
-	Trailers     [][2]string `json:"trailers,omitempty"`
-	Err          *ErrSpec    `json:"err,omitempty"`
-	ErrInHeaders bool        `json:"err_in_headers,omitempty"` // trailers-only where the protocol allows it
-	TrailerStyle string      `json:"trailer_style,omitempty"`  // announce | prefix
-	AnnounceCase string      `json:"announce_case,omitempty"`  // spelling of the names in the Trailer header: "" canonical | lower | upper | given | lines (one header line per name)
-	DeclareCL    string      `json:"declare_cl,omitempty"`     // "" | exact | +N | -N | =N
-	WriteMode    string      `json:"write_mode,omitempty"`     // whole | frames | prefix-payload | sizes
-	WriteSizes   []int       `json:"write_sizes,omitempty"`    // cyclic, for mode sizes
-	EmptyWrites  bool        `json:"empty_writes,omitempty"`   // interleave zero-length writes
-	FlushEvery   int         `json:"flush_every,omitempty"`    // flush after every k-th write (0: never)
-	ExplicitHdr  bool        `json:"explicit_header,omitempty"`
-	CutAt        int         `json:"cut_at,omitempty"`         // >0: stop writing the body after this many bytes and return (no end)
-	CutPlusEnd   bool        `json:"cut_plus_end,omitempty"`   // with CutAt: still set trailers
-	BareStatus   int         `json:"bare_status,omitempty"`    // answer with a bare HTTP status
-	BareBody     []byte      `json:"bare_body,omitempty"`
-	BareCT       string      `json:"bare_ct,omitempty"`
-	GRPCStatusText string    `json:"grpc_status_text,omitempty"` // override the text of grpc-status / numeric code
-	EndRaw       []byte      `json:"end_raw,omitempty"`         // override the bytes of the end-of-stream frame payload
-	EndFlags     *int        `json:"end_flags,omitempty"`
-	OmitEnd      bool        `json:"omit_end,omitempty"`        // never signal the end (missing grpc-status / end frame)
-	ExtraHdrs    [][2]string `json:"extra_hdrs,omitempty"`      // raw control headers (hostile)
-	RawBody      []byte      `json:"raw_body,omitempty"`        // if non-nil replaces the rendered body (hostile)
-	HasRawBody   bool        `json:"has_raw_body,omitempty"`
-	HasEndRaw    bool        `json:"has_end_raw,omitempty"`
-	RawStatus    int         `json:"raw_status,omitempty"`
-	ContentType  string      `json:"content_type,omitempty"`    // override
-	HTTPBody     bool        `json:"http_body,omitempty"`       // REST target answering google.api.HttpBody: raw bytes
+	Headers        [][2]string `json:"headers,omitempty"`
+	Msgs           []MsgSpec   `json:"msgs,omitempty"`
+	Compression    string      `json:"compression,omitempty"`
+	Trailers       [][2]string `json:"trailers,omitempty"`
+	Err            *ErrSpec    `json:"err,omitempty"`
+	ErrInHeaders   bool        `json:"err_in_headers,omitempty"` // trailers-only where the protocol allows it
+	TrailerStyle   string      `json:"trailer_style,omitempty"`  // announce | prefix
+	AnnounceCase   string      `json:"announce_case,omitempty"`  // spelling of the names in the Trailer header: "" canonical | lower | upper | given | lines (one header line per name)
+	DeclareCL      string      `json:"declare_cl,omitempty"`     // "" | exact | +N | -N | =N
+	WriteMode      string      `json:"write_mode,omitempty"`     // whole | frames | prefix-payload | sizes
+	WriteSizes     []int       `json:"write_sizes,omitempty"`    // cyclic, for mode sizes
+	EmptyWrites    bool        `json:"empty_writes,omitempty"`   // interleave zero-length writes
+	FlushEvery     int         `json:"flush_every,omitempty"`    // flush after every k-th write (0: never)
+	ExplicitHdr    bool        `json:"explicit_header,omitempty"`
+	CutAt          int         `json:"cut_at,omitempty"`       // >0: stop writing the body after this many bytes and return (no end)
+	CutPlusEnd     bool        `json:"cut_plus_end,omitempty"` // with CutAt: still set trailers
+	BareStatus     int         `json:"bare_status,omitempty"`  // answer with a bare HTTP status
+	BareBody       []byte      `json:"bare_body,omitempty"`
+	BareCT         string      `json:"bare_ct,omitempty"`
+	GRPCStatusText string      `json:"grpc_status_text,omitempty"` // override the text of grpc-status / numeric code
+	EndRaw         []byte      `json:"end_raw,omitempty"`          // override the bytes of the end-of-stream frame payload
+	EndFlags       *int        `json:"end_flags,omitempty"`
+	OmitEnd        bool        `json:"omit_end,omitempty"`   // never signal the end (missing grpc-status / end frame)
+	ExtraHdrs      [][2]string `json:"extra_hdrs,omitempty"` // raw control headers (hostile)
+	RawBody        []byte      `json:"raw_body,omitempty"`   // if non-nil replaces the rendered body (hostile)
+	HasRawBody     bool        `json:"has_raw_body,omitempty"`
+	HasEndRaw      bool        `json:"has_end_raw,omitempty"`
+	RawStatus      int         `json:"raw_status,omitempty"`
+	ContentType    string      `json:"content_type,omitempty"` // override
+	HTTPBody       bool        `json:"http_body,omitempty"`    // REST target answering google.api.HttpBody: raw bytes
 }
 
 type BackendPlan struct {
-	Mode      string   `json:"mode,omitempty"` // read-all | respond-first | no-read | pingpong | duplex
-	ReadSizes []int    `json:"read_sizes,omitempty"`
-	Resp      RespPlan `json:"resp"`
-	Lenient   bool     `json:"lenient,omitempty"`  // ignores read/decode errors
-	PanicAt   string   `json:"panic_at,omitempty"` // before-headers | after-headers | mid-body
-	LateIO    bool     `json:"late_io,omitempty"`  // a leaked goroutine touches body and writer after the handler returned
-	ReadAfter bool     `json:"read_after,omitempty"` // keep reading the request after responding
-	SplitReader bool   `json:"split_reader,omitempty"` // pingpong: a second goroutine of the handler does the reading (reverse proxies, grpc-go's ServeHTTP transport)
+	Mode        string   `json:"mode,omitempty"` // read-all | respond-first | no-read | pingpong | duplex
+	ReadSizes   []int    `json:"read_sizes,omitempty"`
+	Resp        RespPlan `json:"resp"`
+	Lenient     bool     `json:"lenient,omitempty"`      // ignores read/decode errors
+	PanicAt     string   `json:"panic_at,omitempty"`     // before-headers | after-headers | mid-body
+	LateIO      bool     `json:"late_io,omitempty"`      // a leaked goroutine touches body and writer after the handler returned
+	ReadAfter   bool     `json:"read_after,omitempty"`   // keep reading the request after responding
+	CloseBody   string   `json:"close_body,omitempty"`   // the handler closes the request body itself: after-read | at-return | twice (connect-go and grpc-go handlers do)
+	SplitReader bool     `json:"split_reader,omitempty"` // pingpong: a second goroutine of the handler does the reading (reverse proxies, grpc-go's ServeHTTP transport)
 }
 
 type BackendObs struct {
-	Seq           uint64              `json:"seq"`
-	Service       string              `json:"service"`
-	Method        string              `json:"method"`
-	Path          string              `json:"path"`
-	RawPath       string              `json:"raw_path,omitempty"`
-	RawQuery      string              `json:"raw_query,omitempty"`
-	Proto         string              `json:"proto"`
-	ProtoMajor    int                 `json:"proto_major"`
-	Header        http.Header         `json:"header"`
-	ContentLength int64               `json:"content_length"`
-	Protocol      string              `json:"protocol"`
-	Stream        bool                `json:"stream"` // enveloped
-	Codec         string              `json:"codec"`
-	Compression   string              `json:"compression,omitempty"`
-	Accept        []string            `json:"accept,omitempty"`
-	Timeout       string              `json:"timeout,omitempty"` // raw header value
-	TimeoutHdr    string              `json:"timeout_hdr,omitempty"`
-	Body          []byte              `json:"-"`
-	BodyLen       int                 `json:"body_len"`
-	ReadErr       string              `json:"read_err,omitempty"`
-	Msgs          [][]byte            `json:"msgs,omitempty"` // canonical bytes of completely decoded request messages
-	Problems      []string            `json:"problems,omitempty"`
-	Undecodable   []string            `json:"undecodable,omitempty"` // what a conforming backend would fail the RPC for
-	RPCMethod     string              `json:"rpc_method,omitempty"`  // resolved method full name
-	WriteErrs     []string            `json:"write_errs,omitempty"`
-	Ctx           context.Context     `json:"-"`
-	CtxErrAtEntry string              `json:"ctx_err_at_entry,omitempty"`
-	Responded     bool                `json:"responded"`
-	SentMsgs      int                 `json:"sent_msgs"`
-	AppHeaders    map[string][]string `json:"app_headers,omitempty"`
-	Panicked      bool                `json:"panicked,omitempty"`
-	Returned      bool                `json:"returned"`
-	Host          string              `json:"host,omitempty"`
-	RequestURI    string              `json:"request_uri,omitempty"`
-	TransferEncoding []string         `json:"transfer_encoding,omitempty"`
-	Flushes       int                 `json:"flushes,omitempty"`
-	rules         []RulePlan
-	binding       *refBinding
+	Seq              uint64              `json:"seq"`
+	Service          string              `json:"service"`
+	Method           string              `json:"method"`
+	Path             string              `json:"path"`
+	RawPath          string              `json:"raw_path,omitempty"`
+	RawQuery         string              `json:"raw_query,omitempty"`
+	Proto            string              `json:"proto"`
+	ProtoMajor       int                 `json:"proto_major"`
+	Header           http.Header         `json:"header"`
+	ContentLength    int64               `json:"content_length"`
+	Protocol         string              `json:"protocol"`
+	Stream           bool                `json:"stream"` // enveloped
+	Codec            string              `json:"codec"`
+	Compression      string              `json:"compression,omitempty"`
+	Accept           []string            `json:"accept,omitempty"`
+	Timeout          string              `json:"timeout,omitempty"` // raw header value
+	TimeoutHdr       string              `json:"timeout_hdr,omitempty"`
+	Body             []byte              `json:"-"`
+	BodyLen          int                 `json:"body_len"`
+	ReadErr          string              `json:"read_err,omitempty"`
+	Msgs             [][]byte            `json:"msgs,omitempty"` // canonical bytes of completely decoded request messages
+	Problems         []string            `json:"problems,omitempty"`
+	Undecodable      []string            `json:"undecodable,omitempty"` // what a conforming backend would fail the RPC for
+	RPCMethod        string              `json:"rpc_method,omitempty"`  // resolved method full name
+	WriteErrs        []string            `json:"write_errs,omitempty"`
+	Ctx              context.Context     `json:"-"`
+	CtxErrAtEntry    string              `json:"ctx_err_at_entry,omitempty"`
+	Responded        bool                `json:"responded"`
+	SentMsgs         int                 `json:"sent_msgs"`
+	AppHeaders       map[string][]string `json:"app_headers,omitempty"`
+	Panicked         bool                `json:"panicked,omitempty"`
+	Returned         bool                `json:"returned"`
+	Host             string              `json:"host,omitempty"`
+	RequestURI       string              `json:"request_uri,omitempty"`
+	TransferEncoding []string            `json:"transfer_encoding,omitempty"`
+	Flushes          int                 `json:"flushes,omitempty"`
+	rules            []RulePlan
+	binding          *refBinding
 }
 
 func (b *BackendObs) problem(format string, args ...any) {
@@ -121,7 +122,7 @@ type backendHandler struct {
 	svc     *ServicePlan
 	schema  *Schema
 	lookup  func(r *http.Request) *rpcState // finds the RPC this request belongs to
-	unknown bool // this is the unknown-endpoint handler
+	unknown bool                            // this is the unknown-endpoint handler
 }
 
 type simPanic struct{ where string }
@@ -177,6 +178,9 @@ func (h *backendHandler) ServeHTTP(rw http.ResponseWriter, r *http.Request) {
 		panic(simPanic{"before-headers"})
 	}
 	rd := &reqReader{st: st, obs: obs, body: r.Body, sizes: bp.ReadSizes}
+	if bp.CloseBody == "at-return" || bp.CloseBody == "twice" {
+		defer func() { _ = r.Body.Close() }()
+	}
 	switch bp.Mode {
 	case "respond-first":
 		h.respond(st, obs, rw, nil)
@@ -192,6 +196,9 @@ func (h *backendHandler) ServeHTTP(rw http.ResponseWriter, r *http.Request) {
 		h.duplex(st, obs, rw, rd)
 	default:
 		rd.readAll()
+		if bp.CloseBody == "after-read" || bp.CloseBody == "twice" {
+			_ = r.Body.Close()
+		}
 		h.decodeRequest(obs)
 		h.respond(st, obs, rw, nil)
 	}
